@@ -271,3 +271,416 @@ Example C04_walk_ties_example :
   Model.Loop.all_exited st = true /\ Model.Loop.killed st = false /\
   fst (tree_copy (ex_k no_fault) ex_src3 [] [[111]] ex_dst2 (map cb_of_item (Model.Loop.log st))) = COk.
 Proof. vm_compute. repeat split. Qed.
+
+(** ====================================================================================
+    Proof audit (round 5): the clauses that were stated only conditionally, only for one
+    scenario, or not at all.  Lemmas in Proofs/C04Faults.v, Proofs/C04Exact.v,
+    Proofs/C04Session.v. *)
+From GC Require Import Proofs.C04Faults Proofs.C04Exact Proofs.C04Session.
+
+(** ---------- every injected failure, every helper, every plan *)
+
+(** StreamCopy / Copier.copyFile started in ANY counter state, under ANY plan, relative to the
+    fault-free run: a plan that spares the calls of the fault-free run changes nothing; an Ok run
+    left the same tree, made the same calls and none of them was planned to fail; a plan failing
+    at least one of those calls gives Err.  Supersedes part (3) of C04_streamcopy (one fault,
+    fresh counters). *)
+Theorem C04_streamcopy_every_plan : forall pl st mkpar B src dst ps pd c t0 c0, (1 <= B)%nat ->
+  stream_copy_at no_fault st mkpar B src dst ps pd c = (COk, t0, c0) ->
+  ((forall f, in_range c c0 f -> pl f = false) ->
+     stream_copy_at pl st mkpar B src dst ps pd c = (COk, t0, c0)) /\
+  (forall t c', stream_copy_at pl st mkpar B src dst ps pd c = (COk, t, c') ->
+     t = t0 /\ c' = c0 /\ forall f, in_range c c0 f -> pl f = false) /\
+  (forall f, in_range c c0 f -> pl f = true ->
+     fst (fst (stream_copy_at pl st mkpar B src dst ps pd c)) = CErr).
+Proof. exact stream_copy_plan. Qed.
+Print Assumptions C04_streamcopy_every_plan.
+
+(** fshelper.Copy, any callback list, ANY plan: the calls of the copy are the counted calls of the
+    fault-free run and the ReadDir calls of the walk ([walk_reached]); the result is Ok with the
+    fault-free tree when the plan spares them all, and Err as soon as it fails one of them
+    (Reader, Writer, k-th Read, k-th Write, either Close, MkdirAll, ReadDir).  This is the
+    quantifier "every single injected I/O failure during a copy" for trees, which the older
+    theorems state only through Ok => complete. *)
+Theorem C04_treecopy_every_plan : forall k pl src s d dst l t0 c0, (1 <= cc_buf k)%nat ->
+  run_cbs (set_plan k no_fault) src s d dst ctr0 l = (COk, t0, c0) ->
+  ((forall f, walk_reached ctr0 c0 l f -> pl f = false) -> tree_copy (set_plan k pl) src s d dst l = (COk, t0)) /\
+  (forall t, tree_copy (set_plan k pl) src s d dst l = (COk, t) ->
+             t = t0 /\ forall f, walk_reached ctr0 c0 l f -> pl f = false) /\
+  (forall f, walk_reached ctr0 c0 l f -> pl f = true -> fst (tree_copy (set_plan k pl) src s d dst l) = CErr).
+Proof. exact tree_copy_plan. Qed.
+Print Assumptions C04_treecopy_every_plan.
+
+(** The same for Copier.copyDirectory (MkdirAll of the destination root is one more call). *)
+Theorem C04_copier_dir_every_plan : forall k pl src s d dst l t1 c1 t0 c0, (1 <= cc_buf k)%nat ->
+  is_dir_at src s = true ->
+  mkdir_step no_fault dst d ctr0 = (COk, t1, c1) ->
+  run_cbs (set_plan k no_fault) src s d t1 c1 l = (COk, t0, c0) ->
+  ((forall f, walk_reached ctr0 c0 l f -> pl f = false) -> copier_dir (set_plan k pl) src s d dst l = (COk, t0)) /\
+  (forall t, copier_dir (set_plan k pl) src s d dst l = (COk, t) ->
+             t = t0 /\ forall f, walk_reached ctr0 c0 l f -> pl f = false) /\
+  (forall f, walk_reached ctr0 c0 l f -> pl f = true -> fst (copier_dir (set_plan k pl) src s d dst l) = CErr).
+Proof. exact copier_dir_plan. Qed.
+Print Assumptions C04_copier_dir_every_plan.
+
+(** ---------- exactness: the destination at EVERY path *)
+
+(** StreamCopy Ok => the destination is, at every path, the file / its parent chain / what was
+    there ([expected_file]); nothing else appears.  Supersedes the lookup clauses of part (1) of
+    C04_streamcopy. *)
+Theorem C04_streamcopy_exact : forall pl st mkpar B src dst ps pd c r c',
+  (1 <= B)%nat -> WF dst -> good_path pd = true -> pd <> [] ->
+  stream_copy_at pl st mkpar B src dst ps pd c = (COk, r, c') ->
+  exists data, lookup src ps = Some (F data) /\ WF r /\
+    forall q, lookup r q = expected_file dst pd data q.
+Proof. exact stream_copy_exact. Qed.
+Print Assumptions C04_streamcopy_exact.
+
+(** ... and it is literally the tree WriteFile(pd, data) gives from the old destination (same
+    nodes in the same creation order): the Writer's truncation at open leaves no trace. *)
+Theorem C04_streamcopy_is_write : forall pl st mkpar B src dst ps pd c r c',
+  (1 <= B)%nat -> WF dst -> good_path pd = true -> pd <> [] ->
+  stream_copy_at pl st mkpar B src dst ps pd c = (COk, r, c') ->
+  exists data, lookup src ps = Some (F data) /\ write_at dst pd data = Some r.
+Proof. exact stream_copy_is_write. Qed.
+Print Assumptions C04_streamcopy_is_write.
+
+(** The front ends on RAW path strings (no theorem named them before): fshelper.StreamCopy and
+    Copier.copyFile, every spelling of the paths, every plan. *)
+Theorem C04_streamcopy_raw_exact : forall pl st mkpar B src dst s c r c',
+  (1 <= B)%nat -> WF dst -> stream_copy pl st mkpar B src dst s c = (COk, r, c') ->
+  exists p data, reduce_node s = Some p /\ lookup src p = Some (F data) /\ WF r /\
+    forall q, lookup r q = expected_file dst p data q.
+Proof. exact stream_copy_raw_exact. Qed.
+Print Assumptions C04_streamcopy_raw_exact.
+
+Theorem C04_copier_file_exact : forall pl st mkpar B src dst s d c r c',
+  (1 <= B)%nat -> WF dst -> copier_file pl st mkpar B src dst s d c = (COk, r, c') ->
+  exists ps pd data, reduce_node s = Some ps /\ reduce_node d = Some pd /\
+    lookup src ps = Some (F data) /\ WF r /\ forall q, lookup r q = expected_file dst pd data q.
+Proof. exact copier_file_exact. Qed.
+Print Assumptions C04_copier_file_exact.
+
+(** When the destination Writer can be opened, on both kinds of backend (parents created or
+    not): exactly when the target is not a directory and the parent chain is free / present.
+    This discharges the hypothesis [writer_open ... = Some d1] of part (2) of C04_streamcopy. *)
+Theorem C04_writer_open_iff : forall mkpar t p, WF t -> good_path p = true -> p <> [] ->
+  ((exists t1, writer_open mkpar t p = Some t1) <-> lookup t p <> Some D /\ parents_free mkpar t p).
+Proof. exact writer_open_iff. Qed.
+Print Assumptions C04_writer_open_iff.
+
+(** Total statement for one file: without a planned fault Copier.copyFile is Ok EXACTLY when both
+    strings name a node, the source is a file and the Writer can be opened. *)
+Theorem C04_copier_file_total : forall pl st mkpar B src dst s d c,
+  (1 <= B)%nat -> WF dst -> (forall f, pl f = false) ->
+  ((exists r c', copier_file pl st mkpar B src dst s d c = (COk, r, c')) <->
+   (exists ps pd data, reduce_node s = Some ps /\ reduce_node d = Some pd /\
+      lookup src ps = Some (F data) /\ lookup dst pd <> Some D /\ parents_free mkpar dst pd)).
+Proof. exact copier_file_total. Qed.
+Print Assumptions C04_copier_file_total.
+
+(** Tree copy Ok => the destination is EXACTLY [expected] at every path: below the destination
+    root the source nodes, everything else as before, nothing more (the L2 oracle's refusal of
+    entries that are neither old nor in the source, as a theorem); every callback order, every
+    plan.  Supersedes the lookup clauses of part (1) of C04_treecopy when the destination root
+    exists. *)
+Theorem C04_treecopy_exact : forall k src s d dst cbs t,
+  (1 <= cc_buf k)%nat -> WF src -> WF dst -> good_path d = true ->
+  lookup dst d = Some D ->
+  Permutation cbs (cbs_of src s) ->
+  tree_copy k src s d dst cbs = (COk, t) ->
+  WF t /\ forall q, lookup t q = expected src s d dst q.
+Proof. exact treecopy_exact. Qed.
+Print Assumptions C04_treecopy_exact.
+
+(** Hence the result does not depend on the order of the callbacks nor on the plan. *)
+Theorem C04_treecopy_order_independent : forall k1 k2 src s d dst cbs1 cbs2 t1 t2,
+  (1 <= cc_buf k1)%nat -> (1 <= cc_buf k2)%nat -> WF src -> WF dst -> good_path d = true ->
+  lookup dst d = Some D ->
+  Permutation cbs1 (cbs_of src s) -> Permutation cbs2 (cbs_of src s) ->
+  tree_copy k1 src s d dst cbs1 = (COk, t1) -> tree_copy k2 src s d dst cbs2 = (COk, t2) ->
+  forall q, lookup t1 q = lookup t2 q.
+Proof. exact treecopy_order_independent. Qed.
+Print Assumptions C04_treecopy_order_independent.
+
+(** Into an empty directory the copy is a mirror of the source subtree. *)
+Theorem C04_treecopy_mirror : forall k src s d dst cbs t,
+  (1 <= cc_buf k)%nat -> WF src -> WF dst -> good_path d = true ->
+  lookup dst d = Some D -> (forall x, x <> [] -> lookup dst (d ++ x) = None) ->
+  Permutation cbs (cbs_of src s) ->
+  tree_copy k src s d dst cbs = (COk, t) ->
+  forall x, x <> [] -> lookup t (d ++ x) = lookup src (s ++ x).
+Proof. exact treecopy_mirror. Qed.
+Print Assumptions C04_treecopy_mirror.
+
+(** Total correctness of fshelper.Copy: no planned fault, no file/directory conflict, any order
+    => Ok AND exactly the expected tree.  Supersedes part (2) of C04_treecopy. *)
+Theorem C04_treecopy_total : forall k src s d dst cbs,
+  (1 <= cc_buf k)%nat -> WF src -> WF dst -> good_path d = true ->
+  (forall f, cc_plan k f = false) -> cc_file_mkdir k = true ->
+  lookup dst d = Some D -> no_conflict src s dst d ->
+  Permutation cbs (cbs_of src s) ->
+  exists t, tree_copy k src s d dst cbs = (COk, t) /\ WF t /\ forall q, lookup t q = expected src s d dst q.
+Proof. exact treecopy_total. Qed.
+Print Assumptions C04_treecopy_total.
+
+(** Copier.copyDirectory (checked by the correspondence, named by no theorem before): Ok => the
+    source is a directory, the destination root was made, and the result is exactly the expected
+    tree over it; and it IS Ok when nothing is in the way. *)
+Theorem C04_copier_dir_exact : forall k src s d dst cbs t,
+  (1 <= cc_buf k)%nat -> WF src -> WF dst -> good_path d = true ->
+  Permutation cbs (cbs_of src s) ->
+  copier_dir k src s d dst cbs = (COk, t) ->
+  is_dir_at src s = true /\
+  exists t1, mkdir_all dst d = Some t1 /\ WF t /\ forall q, lookup t q = expected src s d t1 q.
+Proof. exact copier_dir_exact. Qed.
+Print Assumptions C04_copier_dir_exact.
+
+Theorem C04_copier_dir_total : forall k src s d dst cbs,
+  (1 <= cc_buf k)%nat -> WF src -> WF dst -> good_path d = true ->
+  (forall f, cc_plan k f = false) -> cc_file_mkdir k = true ->
+  is_dir_at src s = true ->
+  (forall q data, is_prefix q d = true -> lookup dst q <> Some (F data)) ->
+  no_conflict src s dst d ->
+  Permutation cbs (cbs_of src s) ->
+  exists t t1, copier_dir k src s d dst cbs = (COk, t) /\ mkdir_all dst d = Some t1 /\
+               WF t /\ forall q, lookup t q = expected src s d t1 q.
+Proof. exact copier_dir_total. Qed.
+Print Assumptions C04_copier_dir_total.
+
+(** ---------- Writer and Reader sessions on the tree *)
+
+(** A Writer session succeeds EXACTLY when the string names a node that is not a directory and no
+    file lies on the way (discharges the hypothesis [... = RUnit] of C04_writer_exact). *)
+Theorem C04_writer_succeeds_iff : forall t s chunks, WF t ->
+  (snd (mem_step t (OWriter s chunks)) = RUnit <->
+   exists p, reduce_node s = Some p /\ lookup t p <> Some D /\ parents_free true t p).
+Proof. exact writer_step_iff. Qed.
+Print Assumptions C04_writer_succeeds_iff.
+
+(** The bytes the step stores are those of the handle-level session (truncate at open, each Write
+    at the offset), whatever the file held. *)
+Theorem C04_writer_step_is_session : forall t s chunks old,
+  mem_step t (OWriter s chunks) = mem_step t (OWriteFile s (writer_result Truncate old chunks)).
+Proof. exact writer_step_is_session. Qed.
+Print Assumptions C04_writer_step_is_session.
+
+(** Writer then Reader: through any two spellings of the path and any buffer sizes the Reader
+    delivers read_seq of the concatenation, ReadFile the concatenation itself; with enough
+    non-empty buffers EOF is reported and the chunks read concatenate to the chunks written. *)
+Theorem C04_writer_reader_roundtrip : forall t s s' chunks bufs p,
+  WF t -> reduce_node s = Some p -> reduce_node s' = Some p ->
+  snd (mem_step t (OWriter s chunks)) = RUnit ->
+  let t' := fst (mem_step t (OWriter s chunks)) in
+  let r := read_seq (concat chunks) bufs in
+  mem_step t' (OReader s' bufs) = (t', RChunks r) /\
+  mem_step t' (OReadFile s') = (t', RData (concat chunks)) /\
+  (exists rest, concat chunks = chunks_concat r ++ rest /\ (saw_eof r = true -> rest = [])) /\
+  (Forall (fun n => (1 <= n)%nat) bufs -> (length (concat chunks) < length bufs)%nat ->
+     saw_eof r = true /\ chunks_concat r = concat chunks).
+Proof. exact writer_reader_roundtrip. Qed.
+Print Assumptions C04_writer_reader_roundtrip.
+
+(** A second session on the file cannot fail and replaces the content (shorter, longer, empty). *)
+Theorem C04_writer_second_session : forall t s s' chunks chunks' p,
+  WF t -> reduce_node s = Some p -> reduce_node s' = Some p ->
+  snd (mem_step t (OWriter s chunks)) = RUnit ->
+  let t' := fst (mem_step t (OWriter s chunks)) in
+  snd (mem_step t' (OWriter s' chunks')) = RUnit /\
+  lookup (fst (mem_step t' (OWriter s' chunks'))) p = Some (F (concat chunks')).
+Proof. exact writer_second_session. Qed.
+Print Assumptions C04_writer_second_session.
+
+(** A second write gives the very tree a single write would have given (node order included). *)
+Theorem C04_write_twice : forall t p a b t1,
+  WF t -> good_path p = true -> p <> [] ->
+  write_at t p a = Some t1 -> write_at t1 p b = write_at t p b.
+Proof. exact write_at_twice. Qed.
+Print Assumptions C04_write_twice.
+
+(** Reader, ANY buffer sizes with zero-length buffers in between, both EOF conventions: once more
+    non-empty buffers were offered than the file has bytes, EOF was reported and exactly the
+    stored bytes were delivered.  Supersedes the last clause of C04_reader_exact (all sizes >= 1). *)
+Theorem C04_reader_eof_reached : forall st data bufs,
+  (length data < length (nonzero bufs))%nat ->
+  saw_eof (read_calls st data bufs) = true /\ chunks_concat (read_calls st data bufs) = data.
+Proof. exact reader_eof_reached. Qed.
+Print Assumptions C04_reader_eof_reached.
+
+(** ---------- the hypotheses of the audit theorems are satisfiable by non-trivial values *)
+
+(* the fault-free StreamCopy of 3 bytes with a 2-byte buffer (lazy EOF) makes 1 Reader, 1 Writer,
+   3 Read, 2 Write and 2 Close calls; a plan with two faults outside them changes nothing, a plan
+   with two faults one of which is the last Read gives Err *)
+Definition ex_two (a b : fault) : plan := fun f => fault_eqb a f || fault_eqb b f.
+Example C04_streamcopy_every_plan_nonvacuous :
+  exists t0 c0,
+    stream_copy_at no_fault EofLazy false 2 ex_src ex_t [[100]; [102]] [[100]; [102]] ctr0 = (COk, t0, c0) /\
+    c0 = mkCtr 1 1 3 2 1 1 0 /\
+    in_range ctr0 c0 (FRead 2) /\ in_range ctr0 c0 (FCloseR 0) /\ ~ in_range ctr0 c0 (FRead 3) /\
+    (forall f, in_range ctr0 c0 f -> ex_two (FRead 3) (FMkdir 0) f = false) /\
+    stream_copy_at (ex_two (FRead 3) (FMkdir 0)) EofLazy false 2 ex_src ex_t [[100]; [102]] [[100]; [102]] ctr0 = (COk, t0, c0) /\
+    fst (fst (stream_copy_at (ex_two (FRead 2) (FWrite 7)) EofLazy false 2 ex_src ex_t [[100]; [102]] [[100]; [102]] ctr0)) = CErr.
+Proof.
+  eexists. eexists. split; [vm_compute; reflexivity|]. split; [reflexivity|].
+  split; [cbn; lia|]. split; [cbn; lia|]. split; [cbn; lia|]. split; [|split; vm_compute; reflexivity].
+  intros f Hf. destruct f as [j|j|j|j|j|j|j|j]; cbn in Hf |- *; try reflexivity; try lia.
+  destruct j as [|[|[|[|j]]]]; try reflexivity; lia.
+Qed.
+
+(* tree copy: the calls of the fault-free run of C04_treecopy_nonvacuous, reached faults of every
+   kind, and a plan with several faults *)
+Example C04_treecopy_every_plan_nonvacuous :
+  exists t0 c0,
+    run_cbs (set_plan (ex_k no_fault) no_fault) ex_src2 [] [[111]] ex_dst2 ctr0 ex_cbs2 = (COk, t0, c0) /\
+    c0 = mkCtr 3 3 4 3 3 3 5 /\
+    walk_reached ctr0 c0 ex_cbs2 (FMkdir 4) /\ walk_reached ctr0 c0 ex_cbs2 (FReadDir 2) /\
+    walk_reached ctr0 c0 ex_cbs2 (FCloseW 2) /\ walk_reached ctr0 c0 ex_cbs2 (FReader 1) /\
+    ~ walk_reached ctr0 c0 ex_cbs2 (FReadDir 3) /\
+    tree_copy (set_plan (ex_k no_fault) (ex_two (FReadDir 3) (FMkdir 5))) ex_src2 [] [[111]] ex_dst2 ex_cbs2 = (COk, t0) /\
+    fst (tree_copy (set_plan (ex_k no_fault) (ex_two (FCloseW 2) (FRead 0))) ex_src2 [] [[111]] ex_dst2 ex_cbs2) = CErr.
+Proof.
+  eexists. eexists. split; [vm_compute; reflexivity|]. split; [reflexivity|].
+  split; [left; cbn; lia|]. split; [right; exists 2%nat; split; [reflexivity|vm_compute; lia]|].
+  split; [left; cbn; lia|]. split; [left; cbn; lia|].
+  split; [|split; vm_compute; reflexivity].
+  intros [H|(i & E & Hi)]; [exact H|]. inversion E; subst i. vm_compute in Hi. lia.
+Qed.
+
+(* Copier.copyDirectory of the subtree a/ into a destination root that does not exist yet *)
+Definition ex_cbs_a : list cb := rev (cbs_of ex_src2 [[97]]).
+Example C04_copier_dir_every_plan_nonvacuous :
+  is_dir_at ex_src2 [[97]] = true /\
+  exists t1 c1 t0 c0,
+    mkdir_step no_fault ex_dst2 [[110]; [101]] ctr0 = (COk, t1, c1) /\
+    run_cbs (set_plan (ex_k no_fault) no_fault) ex_src2 [[97]] [[110]; [101]] t1 c1 ex_cbs_a = (COk, t0, c0) /\
+    walk_reached ctr0 c0 ex_cbs_a (FMkdir 0) /\ walk_reached ctr0 c0 ex_cbs_a (FWrite 1) /\
+    copier_dir (set_plan (ex_k no_fault) no_fault) ex_src2 [[97]] [[110]; [101]] ex_dst2 ex_cbs_a = (COk, t0) /\
+    lookup t0 [[110]; [101]; [98]; [121]] = Some (F [4]) /\
+    fst (copier_dir (set_plan (ex_k no_fault) (single (FMkdir 0))) ex_src2 [[97]] [[110]; [101]] ex_dst2 ex_cbs_a) = CErr /\
+    fst (copier_dir (set_plan (ex_k no_fault) (single (FWrite 1))) ex_src2 [[97]] [[110]; [101]] ex_dst2 ex_cbs_a) = CErr.
+Proof.
+  split; [reflexivity|]. eexists. eexists. eexists. eexists.
+  split; [vm_compute; reflexivity|]. split; [vm_compute; reflexivity|].
+  split; [left; cbn; lia|]. split; [left; cbn; lia|]. vm_compute. repeat split.
+Qed.
+
+(* exactness, evaluated: after the copies of the older examples the destination agrees with the
+   executable specification at every key of the result, of the old destination, and at paths
+   that exist nowhere *)
+Definition probe_paths (a b : fs) : list path := map fst a ++ map fst b ++ [[]; [[33]]; [[111]; [33]]; [[100]; [33]]].
+Definition entry_eqb (a b : option entry) : bool :=
+  match a, b with
+  | None, None | Some D, Some D => true
+  | Some (F x), Some (F y) => bytes_eqb x y
+  | _, _ => false
+  end.
+Example C04_exact_evaluated :
+  (let r := snd (fst (stream_copy_at no_fault EofLazy true 2 ex_src ex_t [[100]; [102]] [[120]; [121]; [102]] ctr0)) in
+   forallb (fun q => entry_eqb (lookup r q) (expected_file ex_t [[120]; [121]; [102]] [1; 2; 3] q))
+           ([[120]] :: [[120]; [121]] :: probe_paths r ex_t) = true /\
+   write_at ex_t [[120]; [121]; [102]] [1; 2; 3] = Some r) /\
+  (let t := snd (tree_copy (ex_k no_fault) ex_src2 [] [[111]] ex_dst2 ex_cbs2) in
+   forallb (fun q => entry_eqb (lookup t q) (expected ex_src2 [] [[111]] ex_dst2 q)) (probe_paths t ex_dst2) = true /\
+   forallb (fun q => entry_eqb (lookup t q)
+                       (lookup (snd (tree_copy (ex_k no_fault) ex_src2 [] [[111]] ex_dst2 (rev ex_cbs2))) q))
+           (probe_paths t ex_dst2) = true).
+Proof. vm_compute. repeat split. Qed.
+
+(* the Writer can be opened / cannot: parents created or not, a file on the way, a directory as
+   target; both sides of C04_writer_open_iff are inhabited *)
+Example C04_writer_open_nonvacuous :
+  writer_open false ex_t [[100]; [102]] <> None /\ writer_open true ex_t [[120]; [121]; [102]] <> None /\
+  writer_open false ex_t [[120]; [121]; [102]] = None /\ writer_open true ex_t [[107]; [102]] = None /\
+  writer_open true ex_t [[100]] = None /\
+  (lookup ex_t [[120]; [121]; [102]] <> Some D /\ parents_free true ex_t [[120]; [121]; [102]]) /\
+  (lookup ex_t [[100]; [102]] <> Some D /\ parents_free false ex_t [[100]; [102]]).
+Proof.
+  assert (HWF : WF ex_t) by exact (proj1 C04_writer_step_nonvacuous).
+  split; [vm_compute; discriminate|]. split; [vm_compute; discriminate|].
+  split; [reflexivity|]. split; [reflexivity|]. split; [reflexivity|]. split.
+  - apply (proj1 (C04_writer_open_iff true ex_t [[120]; [121]; [102]] HWF eq_refl ltac:(discriminate))).
+    eexists. vm_compute. reflexivity.
+  - apply (proj1 (C04_writer_open_iff false ex_t [[100]; [102]] HWF eq_refl ltac:(discriminate))).
+    eexists. vm_compute. reflexivity.
+Qed.
+
+(* Copier.copyFile on raw strings in odd spellings ("./d//f" to "x/../n/./g"): Ok, hence the
+   right-hand side of C04_copier_file_total holds; a directory as source is refused *)
+Example C04_copier_file_nonvacuous :
+  (exists r c', copier_file no_fault EofEager true 2 ex_t ex_t
+                  [46; 47; 100; 47; 47; 102] [120; 47; 46; 46; 47; 110; 47; 46; 47; 103] ctr0 = (COk, r, c') /\
+                lookup r [[110]; [103]] = Some (F [9; 9; 9; 9; 9; 9]) /\ lookup r [[110]] = Some D) /\
+  (exists ps pd data, reduce_node [46; 47; 100; 47; 47; 102] = Some ps /\
+      reduce_node [120; 47; 46; 46; 47; 110; 47; 46; 47; 103] = Some pd /\
+      lookup ex_t ps = Some (F data) /\ lookup ex_t pd <> Some D /\ parents_free true ex_t pd) /\
+  fst (fst (copier_file no_fault EofEager true 2 ex_t ex_t [100] [110] ctr0)) = CErr.
+Proof.
+  assert (HWF : WF ex_t) by exact (proj1 C04_writer_step_nonvacuous).
+  split; [eexists; eexists; vm_compute; repeat split|]. split; [|reflexivity].
+  apply (proj1 (C04_copier_file_total no_fault EofEager true 2%nat ex_t ex_t _ _ ctr0 ltac:(lia) HWF (fun _ => eq_refl))).
+  eexists. eexists. vm_compute. reflexivity.
+Qed.
+
+(* mirror: the destination directory o/ is empty *)
+Definition ex_dst_empty : fs := [([[111]], D); ([[107]], F [7])].
+Example C04_treecopy_mirror_nonvacuous :
+  WF ex_dst_empty /\ lookup ex_dst_empty [[111]] = Some D /\
+  (forall x, x <> [] -> lookup ex_dst_empty ([[111]] ++ x) = None) /\
+  fst (tree_copy (ex_k no_fault) ex_src2 [] [[111]] ex_dst_empty ex_cbs2) = COk.
+Proof.
+  assert (HWF : WF ex_dst_empty).
+  { split; [vm_compute; repeat constructor; simpl; intuition discriminate|].
+    intros p e H. repeat (destruct H as [H|H]; [inversion H; subst; vm_compute; repeat split; discriminate|]). destruct H. }
+  split; [exact HWF|]. split; [reflexivity|]. split; [|reflexivity].
+  intros x Hx. destruct x as [|a x]; [congruence|]. cbn [app lookup assoc ex_dst_empty path_eqb].
+  destruct (bytes_eqb [111] [111] && path_eqb [] (a :: x)) eqn:E1; [cbn in E1; discriminate|]. reflexivity.
+Qed.
+
+(* Copier.copyDirectory: every hypothesis of C04_copier_dir_total for the copy of the whole of
+   ex_src2 into o/ of ex_dst2 *)
+Example C04_copier_dir_total_nonvacuous :
+  is_dir_at ex_src2 [] = true /\
+  (forall q data, is_prefix q [[111]] = true -> lookup ex_dst2 q <> Some (F data)) /\
+  no_conflict ex_src2 [] ex_dst2 [[111]] /\
+  fst (copier_dir (ex_k no_fault) ex_src2 [] [[111]] ex_dst2 ex_cbs2) = COk.
+Proof.
+  split; [reflexivity|]. split; [|split; [exact C04_no_conflict_nonvacuous|reflexivity]].
+  intros q data Hp Hq. destruct q as [|a q]; [cbn in Hq; discriminate|].
+  destruct q as [|b q]; [|cbn in Hp; rewrite andb_false_r in Hp; discriminate].
+  cbn in Hp. rewrite andb_true_r in Hp. apply bytes_eqb_spec in Hp. subst a. vm_compute in Hq. discriminate.
+Qed.
+
+(* Writer sessions: the session of C04_writer_step_nonvacuous succeeds, so the right-hand side of
+   C04_writer_succeeds_iff holds; a path through a file and a directory as target are refused;
+   round trip with zero-length buffers through another spelling; a shorter second session *)
+Example C04_sessions_nonvacuous :
+  (exists p, reduce_node [46; 47; 100; 47; 102] = Some p /\ lookup ex_t p <> Some D /\ parents_free true ex_t p) /\
+  snd (mem_step ex_t (OWriter [107; 47; 120] [[1]])) = RErr /\
+  snd (mem_step ex_t (OWriter [100] [[1]])) = RErr /\
+  (let t' := fst (mem_step ex_t (OWriter [46; 47; 100; 47; 102] [[1]; []; [2; 3]])) in
+   mem_step t' (OReader [100; 47; 47; 102] [0; 2; 0; 5]%nat) = (t', RChunks [([], false); ([1; 2], false); ([], false); ([3], true)]) /\
+   reduce_node [100; 47; 47; 102] = Some [[100]; [102]] /\
+   lookup (fst (mem_step t' (OWriter [100; 47; 102] [[8]]))) [[100]; [102]] = Some (F [8]) /\
+   lookup (fst (mem_step t' (OWriter [100; 47; 102] []))) [[100]; [102]] = Some (F [])) /\
+  (length [1; 2; 3] < length (nonzero [0; 2; 0; 0; 1; 0; 4; 9]%nat))%nat /\
+  read_calls EofLazy [1; 2; 3] [0; 2; 0; 0; 1; 0; 4; 9]%nat =
+    [([], false); ([1; 2], false); ([], false); ([], false); ([3], false); ([], false); ([], true)].
+Proof.
+  split.
+  - apply (proj1 (C04_writer_succeeds_iff ex_t _ [[1]; []; [2; 3]] (proj1 C04_writer_step_nonvacuous))).
+    exact (proj1 (proj2 (proj2 C04_writer_step_nonvacuous))).
+  - vm_compute. repeat split; lia.
+Qed.
+
+(** The hypothesis [lookup dst d = Some D] of C04_treecopy_exact is needed: copying into a view
+    whose root directory does not exist yet succeeds and MAKES the root (and its ancestors) on the
+    way, which [expected] over the old destination does not show.  Checked on the implementation
+    (memfs, Copy into Filespace of a missing directory): the view is handed out, the copy is Ok and
+    the directory exists afterwards; benign (a needed parent directory), and Copier.copyDirectory
+    makes the root itself first (C04_copier_dir_exact speaks about the tree after that MkdirAll). *)
+Theorem C04_treecopy_exact_root_needed_refuted :
+  exists t, tree_copy (mut_cfg true) mut_src [] [[111]] [] (cbs_of mut_src []) = (COk, t) /\
+            lookup t [[111]] = Some D /\ expected mut_src [] [[111]] [] [[111]] = None.
+Proof. eexists. split; [vm_compute; reflexivity|]. vm_compute. split; reflexivity. Qed.
+Print Assumptions C04_treecopy_exact_root_needed_refuted.
